@@ -127,6 +127,106 @@ def check_c06(prog, rep, tier, cfg):
                 rep.check(bool(st) and cyc is None, R, "every-decision-overwrites:" + f, "a decision of a solved line can leave the input's %s in place" % f,
                           instance={"field": f, "store_blocks": len(st)})
 
+    gap_coverage(prog, rep, "C06.c")
+
+
+def gap_coverage(prog, rep, R):
+    """C06.c — every gap between two adjacent tokens is decided by the spacing table: for every (previous kind, next kind) either the
+    previous token's rule sets the space after it or the next token's rule sets the space before it.  A gap nobody decides keeps the
+    input's blank count (and the indentation width after an input line break) whenever the two tokens end up on one line."""
+    from c02 import eval_row
+    TS = "pasfmt_core::rules::token_spacing::"
+    so = prog.body(TS + "space_operator")
+    fmt = prog.body("<pasfmt_core::rules::token_spacing::TokenSpacing as pasfmt_core::traits::LogicalLineFileFormatter>::format")
+    if not rep.check(so is not None and fmt is not None, R, "anchor:space_operator", "space_operator / TokenSpacing::format not found"):
+        return
+    try:
+        tb = Table(prog, so)
+    except Exception as e:
+        rep.fail(R, "space_operator-table", "space_operator is not a loop-free classifier any more: %s" % e)
+        return
+
+    def comp(res, idx):
+        """'some' | 'none' | 'unknown' for component idx of the (before, after) pair"""
+        if res.kind == "agg" and len(res.a[2]) == 2:
+            v = res.a[2][idx]
+            if v.kind == "agg":
+                return "some" if str(v.a[1]) == "Some" or str(v.a[0]).endswith("Some") else ("none" if str(v.a[1]) == "None" or str(v.a[0]).endswith("None") else "unknown")
+            if v.kind == "call":
+                return "unknown"
+            return "unknown"
+        if res.kind == "call" and res.a[0].endswith("one_space_before"):
+            return "some"      # (spaces_before(prev, 1), Some(0)): both components Some (checked below)
+        return "unknown"
+
+    def kind_of(cons):
+        ch = [c for c in cons if c[1] == "arg1" or c[1].startswith("arg1@")]
+        k = [c[2] for c in ch if c[0] == "is"]
+        return tuple(k)
+
+    after_none, before_none, unknown = [], [], []
+    for cons, res in tb.rows:
+        a, bfr = comp(res, 1), comp(res, 0)
+        if a == "unknown" or bfr == "unknown":
+            unknown.append((kind_of(cons), render(res)))
+        if a == "none":
+            after_none.append(cons)
+        if bfr == "none":
+            before_none.append(cons)
+    rep.check(not unknown, R, "space_operator-rows-decidable", "space_operator has rows whose (before, after) pair cannot be read off: %s" % unknown[:3], instance={"rows": len(tb.rows)})
+    rep.floor(R, "space_operator rows", len(tb.rows), 60)
+    # helper functions always decide: spaces_before / spaces_after return Some on every row; one_space_before = (spaces_before(..), Some(0))
+    for fn in ("spaces_before", "spaces_after"):
+        hb = prog.body(TS + fn)
+        if rep.check(hb is not None, R, "anchor:" + fn, fn + " not found"):
+            th = Table(prog, hb)
+            rep.check(all(render(r).startswith("Some(") for _, r in th.rows), R, fn + ":always-Some", "%s can return None: %s" % (fn, [render(r) for _, r in th.rows]), instance={"fn": fn, "rows": len(th.rows)})
+    # the dispatch in TokenSpacing::format: only Identifier leaves `before` open, only Comment(InlineLine) leaves `after` open
+    open_before, open_after = set(), set()
+    ntup = 0
+    for bb, i, st in fmt.stmts():
+        if st["k"] == "assign" and st["rv"]["k"] == "aggregate" and st["rv"].get("agg") == "tuple" and len(st["rv"]["ops"]) == 2:
+            facts = [fx for fx in dominating_variant_facts(prog, fmt, bb) if "get_token_type_for_index(" in fx[0] and fx[1] == "is"]
+            kinds = tuple(f[2][0] for f in facts if f[2])
+            og = Origins(fmt)
+            for idx, acc in ((0, open_before), (1, open_after)):
+                o = og.of_operand(st["rv"]["ops"][idx])
+                if not o or not all(x[0] == "agg" for x in o):
+                    continue
+                ntup += 1
+                if any(x[3].endswith("Option::None") for x in o):
+                    acc.add(kinds[1:] if kinds[:1] == ("Some",) else kinds)
+    rep.check(open_before == {("Identifier",)} and open_after == {("Comment", "InlineLine")}, R, "format-dispatch-open-sides",
+              "TokenSpacing::format leaves `before` open for %s and `after` open for %s (reviewed: Identifier / Comment(InlineLine))" % (sorted(open_before), sorted(open_after)),
+              instance={"open_before": sorted(map(str, open_before)), "open_after": sorted(map(str, open_after))})
+    # pairs: previous token P with `after` open  x  next token N with `before` open
+    def as_val(kind):
+        v = None
+        for k in reversed(kind):
+            v = (k,) if v is None else (k, v)
+        return v
+    holes = []
+    npairs = 0
+    P_rows = [("op", kind_of(c), c) for c in after_none]            # Comment(InlineLine) is exempt: see below
+    N_rows = [("ident", ("Identifier",), None)] + [("op", kind_of(c), c) for c in before_none]
+    for pk, pkind, pcons in P_rows:
+        pval = ("Some", ("Op", as_val(pkind)))
+        for nk, nkind, ncons in N_rows:
+            npairs += 1
+            nval = ("Some", ("Identifier",)) if nk == "ident" else ("Some", ("Op", as_val(nkind)))
+            # does P's row admit N as the next token?
+            m1 = eval_row([c for c in pcons if "Add(arg2,1)" in c[1]], [("tuple{Add(arg2,1)})", nval)])
+            if m1 is False:
+                continue
+            # does N's row admit P as the previous token (immediately before, and as the previous real token)?
+            if ncons is not None:
+                m2 = eval_row([c for c in ncons if "wrapping_sub(arg2,1)" in c[1] or "{closure#1}" in c[1]], [("tuple{wrapping_sub(arg2,1)})", pval), ("tuple{arg2})", pval)])
+                if m2 is False:
+                    continue
+            holes.append("%s then %s" % ("/".join(pkind), "/".join(nkind)))
+    rep.check(not holes, R, "every-gap-decided", "nobody decides the space between %s — the gap keeps the input's blank count (or its indentation after an input line break)" % sorted(set(holes))[:6],
+              instance={"after_open_operator_rows": len(after_none), "before_open_rows": len(before_none) + 1, "pairs_examined": npairs,
+                        "exempt": "Comment(InlineLine) leaves `after` open: it is always followed by a line break (C02.a) and the next token's spaces are removed as a line start (C08.c)"})
 
 
 def zeroing_after_wrapping(prog, rep, R):
@@ -465,6 +565,10 @@ def rs_new_table(prog, rep, R):
 
 # =========================================================================== C09
 
+def _rv_ops(rv):
+    return [o for o in (rv.get("op"), rv.get("a"), rv.get("b")) if isinstance(o, dict)] + [o for o in rv.get("ops", []) if isinstance(o, dict)]
+
+
 def check_c09(prog, rep, tier, cfg):
     R = "C09.a"
     nb = prog.body(RS + "::new")
@@ -578,6 +682,109 @@ def check_c09(prog, rep, tier, cfg):
                   "the content lengths cached before wrapping are not re-read (len(get_content())) for the tokens of a line whose multi-line strings were rewritten, before that line is re-flowed — "
                   "a literal with CRLF interior breaks is then measured longer than the same literal with LF, so CRLF and LF inputs wrap differently (and the result is not a fixpoint)",
                   where="%s:%d" % (of.file, of.line), instance={"cache": "InternalOptimisingLineFormatter.token_lengths", "refresh": "token_length.content = token.get_content().len()", "stores_found": len(stores)})
+    # ---------------------------------------------------------------- C09.e whole-token lengths never measure a multi-line token
+    R = "C09.e"
+    from progress import dominating_variant_facts
+    # M-functions: bodies of the wrapper that look at the last line (`lines()`) of a token under a TextLiteral/Comment type test
+    mfun = set()
+    for b2 in prog.bodies.values():
+        if not b2.npath.startswith(OLF):
+            continue
+        for c in b2.calls_to("core::str::lines"):
+            fx = dominating_variant_facts(prog, b2, c.bb)
+            if any("get_token_type(" in f[0] and "TextLiteral" in f[2] for f in fx):
+                mfun.add(b2.npath)
+    rep.check(len(mfun) >= 1, R, "anchor:last-line-measure", "no function of the wrapper measures the last line of a multi-line token any more", instance={"last_line_measurers": sorted(short(m) for m in mfun)})
+
+    def override_sites(b2):
+        out = []
+        for c in b2.calls():
+            tg = {c.callee, c.resolved}
+            if tg & mfun:
+                out.append(c)
+                continue
+            for a in c.args:
+                if a["k"] in ("copy", "move") and not a["place"]["p"]:
+                    clos = b2.locals[a["place"]["l"]].get("closure")
+                    cb = prog.body(norm(clos)) if clos else None
+                    if cb is not None and (cb.npath in mfun or any({x.callee, x.resolved} & mfun for x in cb.calls())):
+                        out.append(c)
+        return out
+    nread = 0
+    for (b2, bb, i, kind, s2) in prog.field_accesses(TL, "content"):
+        if kind not in ("read", "ref") or not nondebug(b2.npath):
+            continue
+        nread += 1
+        ms = override_sites(b2)
+        dominated = any(b2.dominates(m.bb, bb) for m in ms)
+        must_after = bool(ms) and not b2.can_reach_avoiding(bb, set(b2.return_blocks()), {m.bb for m in ms})
+        rep.check(dominated or must_after, R, "override:" + short(b2.npath),
+                  "%s reads a token's whole content length (which counts every line of a multi-line literal and its line-ending bytes) without consulting the last-line measure of multi-line tokens %s — "
+                  "a line starting with a multi-line string is then wrapped differently under line_ending=crlf and lf" % (short(b2.npath), sorted(short(m) for m in mfun)),
+                  where="%s:%d" % (b2.file, abs(s2.get("line", 0)) if isinstance(s2, dict) else 0), instance={"reader": short(b2.npath), "override": "dominating" if dominated else "on every path to return"})
+    rep.floor(R, "reads of TokenLength.content", nread, 2)
+    # ---------------------------------------------------------------- C09.f the lexer treats CR and LF alike wherever a line end can end a token
+    R = "C09.f"
+    LXP = "pasfmt_core::defaults::lexer::"
+    nlf = 0
+    for b2 in prog.bodies.values():
+        if not b2.npath.startswith(LXP):
+            continue
+        for bb in sorted(b2.reachable()):
+            t = b2.blocks[bb]["term"]
+            if t["k"] == "switch":
+                tg = dict(t["targets"])
+                if 10 in tg or 13 in tg:
+                    nlf += 1
+                    rep.check(10 in tg and 13 in tg and tg[10] == tg[13], R, "switch:%s" % short(b2.npath),
+                              "a byte dispatch in %s handles %s but not both CR and LF in the same way — with CRLF input the other byte ends up inside (or outside) the token, so CRLF and LF inputs give different tokens"
+                              % (short(b2.npath), sorted(k for k in tg if k in (10, 13))), where="%s:%d" % (b2.file, abs(t.get("line", 0))), instance={"in": short(b2.npath), "dispatch": sorted(tg)})
+        for c in b2.calls():
+            if not (c.callee or "").startswith("memchr::"):
+                continue
+            needles = {a.get("int") for a in c.args if a["k"] == "const"}
+            if 10 not in needles and 13 not in needles:
+                continue
+            nlf += 1
+            if 10 in needles and 13 in needles:
+                rep.ok(R, {"in": short(b2.npath), "search": sorted(needles)})
+                continue
+            # only one of them: tolerated when the result is used as presence only (classification), never as a position
+            dst = c.t.get("dst")
+            uses = []
+            if dst and not dst["p"]:
+                alias = {dst["l"]}
+                grew = True
+                while grew:
+                    grew = False
+                    for bb2, i2, s2 in b2.stmts():
+                        if s2["k"] != "assign" or s2["dst"]["p"] or s2["dst"]["l"] in alias:
+                            continue
+                        rv2 = s2["rv"]
+                        src = rv2["place"]["l"] if rv2["k"] == "ref" and not [p for p in rv2["place"]["p"] if p["k"] != "deref"] else \
+                            (rv2["op"]["place"]["l"] if rv2["k"] == "use" and rv2["op"]["k"] in ("copy", "move") and not rv2["op"]["place"]["p"] else None)
+                        if src in alias:
+                            alias.add(s2["dst"]["l"])
+                            grew = True
+                for c2 in b2.calls():
+                    for a in c2.args:
+                        if a["k"] in ("copy", "move") and a["place"]["l"] in alias:
+                            uses.append((c2.callee or "?").split("::")[-1])
+                for bb2, i2, s2 in b2.stmts():
+                    if s2["k"] != "assign":
+                        continue
+                    if not s2["dst"]["p"] and s2["dst"]["l"] in alias:
+                        continue      # the alias definitions themselves
+                    if any(o["k"] in ("copy", "move") and o["place"]["l"] in alias for o in _rv_ops(s2["rv"])) or (s2["rv"]["k"] in ("ref", "discr") and s2["rv"]["place"]["l"] in alias):
+                        uses.append("stmt:" + s2["rv"]["k"])
+                for bb2 in b2.reachable():
+                    t2 = b2.blocks[bb2]["term"]
+                    if t2["k"] == "switch" and t2["discr"]["k"] in ("copy", "move") and t2["discr"]["place"]["l"] in alias:
+                        uses.append("switch")
+            presence_only = bool(uses) and all(u in ("is_some", "is_none") for u in uses)
+            rep.check(presence_only, R, "search:%s" % short(b2.npath), "%s searches for %s only and uses the position found (%s) — a CRLF line end then leaves the CR inside the token" % (short(b2.npath), sorted(needles & {10, 13}), uses),
+                      where=c.where(), instance={"in": short(b2.npath), "search": sorted(needles), "use": "presence only"})
+    rep.floor(R, "line-end tests in the lexer", nlf, 5)
     # ---------------------------------------------------------------- C09.c config enum mapping
     R = "C09.c"
     cv = [b for k, b in prog.bodies.items() if b.crate == "pasfmt.lib" and "LineEnding" in k and k.endswith("::from")]
@@ -593,6 +800,22 @@ def check_c09(prog, rep, tier, cfg):
 
 
 # =========================================================================== C10
+
+def same_settings_rule(prog, rep, R):
+    """The wrapper (which measures widths and re-indents multi-line strings) and the reconstructor (which emits indentation)
+    are built from one ReconstructionSettings value: shared by C10.b and C12.f."""
+    mf = prog.body("pasfmt::make_formatter")
+    if rep.check(mf is not None, R, "anchor:make_formatter", "make_formatter not found"):
+        on = mf.calls_to(OLF + "OptimisingLineFormatter::new")
+        rn = mf.calls_to("pasfmt_core::defaults::reconstructor::DelphiLogicalLinesReconstructor::new")
+        ok = len(on) == 1 and len(rn) == 1
+        if ok:
+            a = canon(mf, on[0].args[1])
+            b = canon(mf, rn[0].args[0])
+            ok = a == "clone(%s)" % b and b.startswith("into(arg1") or (a.startswith("clone(") and b in a)
+        rep.check(ok, R, "same-settings-for-measure-and-emit", "the wrapper and the reconstructor are not built from the same ReconstructionSettings value", instance={"wrapper": "reconstruction_settings.clone()", "reconstructor": "reconstruction_settings"})
+
+
 
 CONV_RS = "pasfmt::<impl core::convert::From<&pasfmt::FormattingConfig> for pasfmt_core::lang::ReconstructionSettings>::from"
 CONV_OLF = "pasfmt::<impl core::convert::From<&pasfmt::FormattingConfig> for pasfmt_core::rules::optimising_line_formatter::OptimisingLineFormatterSettings>::from"
@@ -622,16 +845,7 @@ def check_c10(prog, rep, tier, cfg):
                   instance={"soft": "(tab_width, continuation_indents*tab_width saturating, Soft)", "hard": "(1, continuation_indents, Hard)"})
     # ---------------------------------------------------------------- C10.b one settings value feeds wrapper and reconstructor
     R = "C10.b"
-    mf = prog.body("pasfmt::make_formatter")
-    if rep.check(mf is not None, R, "anchor:make_formatter", "make_formatter not found"):
-        on = mf.calls_to(OLF + "OptimisingLineFormatter::new")
-        rn = mf.calls_to("pasfmt_core::defaults::reconstructor::DelphiLogicalLinesReconstructor::new")
-        ok = len(on) == 1 and len(rn) == 1
-        if ok:
-            a = canon(mf, on[0].args[1])
-            b = canon(mf, rn[0].args[0])
-            ok = a == "clone(%s)" % b and b.startswith("into(arg1") or (a.startswith("clone(") and b in a)
-        rep.check(ok, R, "same-settings-for-measure-and-emit", "the wrapper and the reconstructor are not built from the same ReconstructionSettings value", instance={"wrapper": "reconstruction_settings.clone()", "reconstructor": "reconstruction_settings"})
+    same_settings_rule(prog, rep, R)
     # ---------------------------------------------------------------- C10.c counter<->string pairing in every width computation
     R = "C10.c"
     def mul_pairs(b):
